@@ -9,7 +9,7 @@ return check" is re-read from the source on every run: `cfg_argsBeforeBody`, `cf
 `anyNonConforming` / `badProduced` are the spec side: some supplied value (explicit keyword, omitted-but-defaulted, *args
 element, **kwargs value) / the produced value does not `conform`.  The proofs go through C01: what one check accepts
 conforms (`sound_checkType`), hence inherit C01's guards (class table with unique names for string annotations, values
-without NamedTuple instances / one-shot iterators).  The generator protocol (yield / send / return checks of
+without one-shot iterators).  The generator protocol (yield / send / return checks of
 GeneratorWrapper) is the theorem `generator_guard_full_proved` of the GenWrap model (every step, `throw` included).
 -/
 namespace PedVerif.Call
@@ -145,7 +145,7 @@ theorem one_bad_keyword (env : Env) (orc : Nat → Val → Raw) (horc : ∀ k v,
     return annotation: a non-conforming result is replaced by PedanticTypeCheckException. -/
 theorem result_guard (env : Env) (orc : Nat → Val → Raw) (f : Fn) (args : List Val) (kw : List (NameId × Val)) (r : Val)
     (hw : WfEnv env) (hmode : f.mode = .pedantic) (hfl : f.flavour ≠ .generator)
-    (a : Ann) (ha : f.retAnn = some a) (hs : a.strAnnOk env r = true) (hns : a.noSpecial = true) (hr : r.wf env = true ∧ r.plain = true)
+    (a : Ann) (ha : f.retAnn = some a) (hs : a.strAnnOk env r = true) (hns : a.noSpecial = true) (hr : r.wf env = true ∧ r.iterFree = true)
     (hret : (runCall env orc f args kw (.ret r)).caller = .ret) : conforms env a r = true := by
   by_cases hinit : (f.firstIsSelf && args.isEmpty) = true
   · unfold runCall at hret; simp [hinit] at hret
@@ -193,14 +193,28 @@ def witnessNT : Fn :=
   { name := "f", flags := flagsOfSource "f" "@pedantic\ndef f(a: NT1) -> int:\n    return 1\n", qualDotted := false,
     params := [{ name := 1, kind := .posOrKw, ann := some ntAnn, dflt := none }], selfName := 0,
     firstIsSelf := false, isBound := false, retAnn := some (.cls 2), genRet := .notGenType, flavour := .sync, mode := .pedantic }
-/-- inherited C01 region `namedtupleStructural`: `f(a=NT2(1, 'a'))` reaches the body although NT2 is unrelated to NT1 -/
-theorem args_guard_fails_namedtuple :
-    anyNonConforming envW witnessNT [] [(1, ntVal)] = true ∧
-    (runCall envW (fun _ _ => .raisedOther) witnessNT [] [(1, ntVal)] (.ret (.lit (.int 1)))).bodyRan = true := by decide
+/-- (was the inherited C01 region `namedtupleStructural` / finding `namedtupleStructuralArgument`, repaired) `f(a=NT2(1, 'a'))` no
+    longer reaches the body of `def f(a: NT1)`: PedanticTypeCheckException (`envN`: 9 = NT1, 10 = NT2 are NamedTuple classes) -/
+theorem fixed_namedtupleStructuralArgument :
+    anyNonConforming envN witnessNT [] [(1, ntVal)] = true ∧
+    (runCall envN (fun _ _ => .raisedOther) witnessNT [] [(1, ntVal)] (.ret (.lit (.int 1)))).bodyRan = false ∧
+    (runCall envN (fun _ _ => .raisedOther) witnessNT [] [(1, ntVal)] (.ret (.lit (.int 1)))).caller = .pedTypeCheck ∧
+    (runCall envN (fun _ _ => .raisedOther) witnessNT [] [(1, .ntup 9 [20, 21] [.lit (.int 1), .lit (.str [97])])] (.ret (.lit (.int 1)))).bodyRan = true := by decide
+
+/-- `@pedantic def g(xs: Iterable[int]) -> int` -/
+def witnessIter : Fn :=
+  { witnessNT with
+    flags := flagsOfSource "g" "@pedantic\ndef g(xs: Iterable[int]) -> int:\n    return 1\n", name := "g",
+    params := [{ name := 1, kind := .posOrKw, ann := some (.seq .typing .iterable (.cls 2)), dflt := none }] }
+/-- inherited C01 region `iteratorItemsUnchecked` (the only one left): `g(xs=iter(['a', 'b']))` reaches the body although the pending
+    items are strings - they are deliberately not looked at (that would consume the iterator, C04) -/
+theorem args_guard_fails_iterator :
+    anyNonConforming envI witnessIter [] [(1, .iterator 6 [.lit (.str [97]), .lit (.str [98])])] = true ∧
+    (runCall envI (fun _ _ => .raisedOther) witnessIter [] [(1, .iterator 6 [.lit (.str [97]), .lit (.str [98])])] (.ret (.lit (.int 1)))).bodyRan = true := by decide
 theorem ArgsGuard_full_is_false : ¬ ArgsGuard_full := by
   intro h
-  have w := args_guard_fails_namedtuple
-  have := h envW (fun _ _ => .raisedOther) witnessNT [] [(1, ntVal)] (.ret (.lit (.int 1))) envW_wf rfl (by decide) w.1
+  have w := args_guard_fails_iterator
+  have := h envI (fun _ _ => .raisedOther) witnessIter [] [(1, .iterator 6 [.lit (.str [97]), .lit (.str [98])])] (.ret (.lit (.int 1))) envI_wf rfl (by decide) w.1
   rw [w.2] at this; cases this
 
 -- non-vacuity: a defaulted parameter with a bad declared default, omitted in the call: `def g(a: int, b: str = 5)`, `g(a=1)`
